@@ -284,3 +284,123 @@ fn x_trait_float() {
     assert!(Data::Float(f).as_date() == dt.map(|d| d.date()));
     assert!(Data::Float(f).as_time() == dt.map(|d| d.time()));
 }
+
+fn mono_bucket(e: i32, excl: bool) {
+    let ma: u64 = kani::any();
+    let mb: u64 = kani::any();
+    kani::assume(ma <= mb && mb < (1u64 << 52));
+    let a = f64::from_bits((((1023 + e) as u64) << 52) | ma);
+    let b = f64::from_bits((((1023 + e) as u64) << 52) | mb);
+    if excl {
+        kani::assume(!(59.0 <= a && a < 61.0) && !(59.0 <= b && b < 61.0));
+    }
+    assert!(ms_of(a, false) <= ms_of(b, false));
+}
+#[kani::proof]
+#[kani::stub(chrono::TimeDelta::milliseconds, rec_milliseconds)]
+fn x_mono_e15() {
+    mono_bucket(15, false);
+}
+#[kani::proof]
+#[kani::stub(chrono::TimeDelta::milliseconds, rec_milliseconds)]
+fn x_mono_e5_excl() {
+    mono_bucket(5, true);
+}
+#[kani::proof]
+#[kani::stub(chrono::TimeDelta::milliseconds, rec_milliseconds)]
+fn x_days_lo() {
+    whole_days_1900(0, 1023);
+}
+#[kani::proof]
+#[kani::stub(chrono::TimeDelta::milliseconds, rec_milliseconds)]
+fn x_days_mid() {
+    whole_days_1900(1024, 65535);
+}
+
+/// days since 1970-01-01 -> proleptic Gregorian (y, m, d); H. Hinnant's civil_from_days, independent of chrono
+fn civil_from_days(z: i64) -> (i64, u32, u32) {
+    let z = z + 719468;
+    let era = (if z >= 0 { z } else { z - 146096 }) / 146097;
+    let doe = (z - era * 146097) as u64;
+    let yoe = (doe - doe / 1460 + doe / 36524 - doe / 146096) / 365;
+    let y = yoe as i64 + era * 400;
+    let doy = doe - (365 * yoe + yoe / 4 - yoe / 100);
+    let mp = (5 * doy + 2) / 153;
+    let d = (doy - (153 * mp + 2) / 5 + 1) as u32;
+    let m = if mp < 10 { mp + 3 } else { mp - 9 } as u32;
+    (if m <= 2 { y + 1 } else { y }, m, d)
+}
+fn civil_range(lo: u32, hi: u32) {
+    let n: u32 = kani::any();
+    kani::assume(lo <= n && n <= hi);
+    let r = ExcelDateTime::new(n as f64, ExcelDateTimeType::DateTime, false).as_datetime();
+    let (y, m, d) = civil_from_days(n as i64 - 25569);
+    let dt = r.unwrap();
+    assert!(dt.year() as i64 == y && dt.month() == m && dt.day() == d);
+    assert!(dt.time() == NaiveTime::MIN);
+}
+#[kani::proof]
+fn x_civil_0() {
+    civil_range(61, 65535);
+}
+#[kani::proof]
+fn x_civil_4k() {
+    civil_range(40000, 44095);
+}
+
+fn dur_ms_of(v: f64) -> i64 {
+    unsafe {
+        REC_CALLS = 0;
+    }
+    let r = ExcelDateTime::new(v, ExcelDateTimeType::TimeDelta, kani::any()).as_duration();
+    unsafe {
+        assert!(REC_CALLS == 1);
+        assert!(r.is_some());
+        REC_MS
+    }
+}
+fn dur_tol(e: i32) {
+    let m: u64 = kani::any();
+    kani::assume(m < (1u64 << 52));
+    let neg: bool = kani::any();
+    let v = f64::from_bits(((neg as u64) << 63) | (((1023 + e) as u64) << 52) | m);
+    let ms = dur_ms_of(v);
+    let s = (52 - e) as u32;
+    let mant = (1u128 << 52) + m as u128;
+    assert!(if neg { ms <= 0 } else { ms >= 0 });
+    let lhs: u128 = (ms.unsigned_abs() as u128) << s;
+    let rhs: u128 = mant * 84375 * 1024;
+    let tol: u128 = (1u128 << (s - 1)) + (1u128 << (s - 4));
+    assert!(lhs <= rhs + tol && rhs <= lhs + tol);
+}
+#[kani::proof]
+#[kani::stub(chrono::TimeDelta::milliseconds, rec_milliseconds)]
+fn x_dur_tol_e15() {
+    dur_tol(15);
+}
+
+fn tol_1904(e: i32) {
+    let m: u64 = kani::any();
+    kani::assume(m < (1u64 << 52));
+    let v = f64::from_bits((((1023 + e) as u64) << 52) | m);
+    kani::assume(v < 2958466.0);
+    let ms = ms_of(v, true);
+    let s = (52 - e) as u32;
+    let mant = (1u128 << 52) + m as u128;
+    let fnum: u128 = mant + (1462u128 << s);
+    let lhs: u128 = (ms as u128) << s;
+    let rhs: u128 = fnum * 84375 * 1024;
+    let tol: u128 = (1u128 << (s - 1)) + (1u128 << (s - 4));
+    assert!(ms >= 0);
+    assert!(lhs <= rhs + tol && rhs <= lhs + tol);
+}
+#[kani::proof]
+#[kani::stub(chrono::TimeDelta::milliseconds, rec_milliseconds)]
+fn x_tol04_e15() {
+    tol_1904(15);
+}
+#[kani::proof]
+#[kani::stub(chrono::TimeDelta::milliseconds, rec_milliseconds)]
+fn x_tol04_em20() {
+    tol_1904(-20);
+}
